@@ -4,7 +4,9 @@ package c02
 
 import (
 	"crypto"
+	"encoding"
 	"encoding/binary"
+	"reflect"
 	"strings"
 	"sync/atomic"
 	"testing"
@@ -194,10 +196,60 @@ func schemeCase(all []sign.Scheme, s sign.Scheme, k, m int) {
 			lib.Count("honest-verified")
 		}
 		honest("matching key", pk)
-		if pku, err := s.UnmarshalBinaryPublicKey(pkb); err != nil {
+		pkbuf := lib.Clone(pkb)
+		pku, uerr := s.UnmarshalBinaryPublicKey(pkbuf)
+		for i := range pkbuf {
+			pkbuf[i] ^= 0xA5 // the caller re-uses its buffer
+		}
+		if uerr != nil {
 			lib.Violation("C02:honest-rejected:"+name+":own-public-key-refused", monSchemes, det())
 		} else {
 			honest("unmarshalled key", pku)
+		}
+		// the key types' OWN decoders (UnmarshalBinary on a new value of the
+		// concrete type), the buffer overwritten as soon as they return: the
+		// decoded public key verifies, the decoded private key signs as before
+		if tp := reflect.TypeOf(pk); tp.Kind() == reflect.Ptr {
+			nv := reflect.New(tp.Elem())
+			if um, ok := nv.Interface().(encoding.BinaryUnmarshaler); ok {
+				buf := lib.Clone(pkb)
+				var derr error
+				pn := lib.Try("PublicKey.UnmarshalBinary:"+name, pkb, func() { derr = um.UnmarshalBinary(buf) })
+				for i := range buf {
+					buf[i] ^= 0xA5
+				}
+				if pkd, ok := nv.Interface().(sign.PublicKey); ok && pn == nil && derr == nil {
+					lib.Count("own-decoder:public-key")
+					honest("public key decoded by its own UnmarshalBinary, buffer overwritten afterwards", pkd)
+					if again, _ := pkd.MarshalBinary(); !lib.Eq(again, pkb) {
+						d := det()
+						d["what"] = "public key decoded by its own UnmarshalBinary changes when the caller's buffer is overwritten"
+						d["encoding_now"] = lib.Hex(again)
+						lib.Violation("C02:honest-rejected:"+name+":decoded-key-tied-to-buffer", monSchemes, d)
+					}
+				}
+			}
+		}
+		if tp := reflect.TypeOf(sk); tp.Kind() == reflect.Ptr && len(c.ctx) == 0 {
+			nv := reflect.New(tp.Elem())
+			if um, ok := nv.Interface().(encoding.BinaryUnmarshaler); ok {
+				skb, _ := sk.MarshalBinary()
+				buf := lib.Clone(skb)
+				var derr error
+				pn := lib.Try("PrivateKey.UnmarshalBinary:"+name, nil, func() { derr = um.UnmarshalBinary(buf) })
+				for i := range buf {
+					buf[i] ^= 0xA5
+				}
+				if skd, ok := nv.Interface().(sign.PrivateKey); ok && pn == nil && derr == nil {
+					lib.Count("own-decoder:private-key")
+					var s3 []byte
+					if p := lib.Try("Sign(decoded key):"+name, msg, func() { s3 = s.Sign(skd, msg, nil) }); p != nil || !lib.Eq(s3, sig) {
+						d := det()
+						d["what"] = "private key decoded by its own UnmarshalBinary (buffer overwritten afterwards) signs differently"
+						lib.Violation("C02:nondeterministic:"+name+":decoded-private-key", monSchemes, d)
+					}
+				}
+			}
 		}
 		if pub, ok := sk.Public().(sign.PublicKey); ok {
 			honest("sk.Public()", pub)
